@@ -444,6 +444,8 @@ def hist_items(tier):
         out.append((sp1, {"rule": "TSLACK", "max_time": F.seq_bound(sp1) + 6}))
     for sp in list(F.fac_specs("quick"))[::9]:
         out.append((sp, {"rule": "TSLACK", "max_time": F.seq_bound(sp) + 6}))
+    for sp in F.scale_specs():
+        out.append((sp, {"rule": "TSLACK", "max_time": F.seq_bound(sp) + 10}))
     return out
 
 
